@@ -10,10 +10,11 @@ A case (JSON, also the corpus / replay format):
   {"method": "POST", "body": "none|bytes|gen|file|nonseek",
    "auth": tok|null, "cookie_hdr": [[name,val],..]|null, "pauth": tok|null, "req_cookies": [[n,v],..]|null,
    "url": {"sch":0|1, "host":h, "port":null|p, "cred":tok|null, "path":k},
-   "max_redirects": n, "allow_redirects": bool, "jar": [[host,name,val],..],
+   "max_redirects": n, "allow_redirects": bool, "jar": [[host,name,val],..], "hdr_on_session": bool (headers given as session defaults),
    "chain": [{"status": s, "set_cookie": [[n,v],..], "body": "none|full|partial",
-              "loc": {"kind":"abs","sch":..,"host":..,"port":..,"cred":..,"path":k} | {"kind":"rel","path":k}
-                   | {"kind":"srel","host":..,"port":..,"path":k} | {"kind":"none"|"invalid"|"nonhttp"|"nohost"}}, ..]}
+              "loc": {"kind":"abs","sch":..,"host":..,"port":..,"cred":..,"path":k[,"upper":true][,"header":"URI"]}
+                   | {"kind":"rel","path":k} | {"kind":"srel","host":..,"port":..,"path":k}
+                   | {"kind":"nonhttp","scheme":"ftp|ws|wss|mailto|file"} | {"kind":"none"|"empty"|"invalid"|"nohost"}}, ..]}
 Requests beyond the end of the chain are answered 200.
 """
 from __future__ import annotations
@@ -30,9 +31,9 @@ PROP = "C17"
 GENERATED = ["RedirectGen.v"]
 RULE = ("redirect chains of length 0..7 generated from one PRNG: initial request (method x body kind x caller "
         "Authorization / Cookie / Proxy-Authorization headers x per-request cookies x URL with embedded credentials x "
-        "max_redirects x allow_redirects x pre-loaded jar) and per hop (status from {301,302,303,307,308,200,404,...} x "
-        "Location form {absolute, absolute+credentials, absolute-path relative, scheme-relative, missing, invalid, "
-        "non-HTTP scheme, host-less} x target origin {same, other port, explicit default port, other scheme, other "
+        "headers per request or as session defaults x max_redirects (incl. 0, -1) x allow_redirects x pre-loaded jar) and per hop (status from {301,302,303,307,308,200,404,...} x "
+        "Location form {absolute, absolute+credentials, upper-case scheme/host, in a URI header, absolute-path relative, "
+        "scheme-relative, missing, empty, invalid, non-HTTP scheme (ftp, ws, wss, mailto, file), host-less} x target origin {same, other port, explicit default port, other scheme, other "
         "host, sub-domain} x Set-Cookie x response body {none, full, truncated}); plus systematic chains "
         "(every status x method x body kind for one hop; A->B->A for every pair of origins).  Non-trivial = at "
         "least one redirect was followed; distinct by hash of the implementation observable.")
@@ -91,10 +92,21 @@ def url_str(u):
     return s + f"/p{u['path']}"
 
 
+NONHTTP_URLS = {"ftp": "ftp://b.test/p1", "ws": "ws://b.test/p1", "wss": "wss://a.test/p1", "mailto": "mailto:someone@b.test",
+                "file": "file:///etc/passwd"}
+NONHTTP_CODES = {"ftp": 4, "ws": 2, "wss": 3, "mailto": 5, "file": 6}      # translator/gen_redirect.SCHEME_CODES
+
+
 def loc_str(loc):
     k = loc["kind"]
     if k == "abs":
-        return url_str(loc)
+        u = url_str(loc)
+        if loc.get("upper"):           # scheme and host are case-insensitive
+            head, sep, tail = u.partition("/p")
+            u = head.replace("http", "HTTP").replace(".test", ".TEST") + sep + tail
+        return u
+    if k == "empty":
+        return ""
     if k == "rel":
         return f"/p{loc['path']}"
     if k == "srel":
@@ -102,7 +114,7 @@ def loc_str(loc):
     if k == "invalid":
         return "http://[::1"
     if k == "nonhttp":
-        return "ftp://b.test/p1"
+        return NONHTTP_URLS[loc.get("scheme", "ftp")]
     if k == "nohost":
         return "http:///p1"
     return None
@@ -193,7 +205,7 @@ class _Run:
         lines = [f"HTTP/1.1 {step['status']} R"]
         loc = loc_str(step.get("loc") or {"kind": "none"})
         if loc is not None:
-            lines.append(f"Location: {loc}")
+            lines.append(f"{(step.get('loc') or {}).get('header', 'Location')}: {loc}")
         for n, v in step.get("set_cookie") or []:
             lines.append(f"Set-Cookie: c{n}=v{v}")
         bk = step.get("body", "none")
@@ -288,7 +300,6 @@ def impl_run(case):
         jar = aiohttp.CookieJar()
         for h, n, v in case.get("jar") or []:
             jar.update_cookies({f"c{n}": f"v{v}"}, response_url=URL(f"http://{HOSTS[h]}/"))
-        session = aiohttp.ClientSession(connector=conn, cookie_jar=jar, response_class=RecResponse)
         headers = []
         if case.get("auth") is not None:
             headers.append(("Authorization", auth_str(case["auth"])))
@@ -296,6 +307,12 @@ def impl_run(case):
             headers.append(("Cookie", "; ".join(f"c{n}=v{v}" for n, v in case["cookie_hdr"])))
         if case.get("pauth") is not None:
             headers.append(("Proxy-Authorization", pauth_str(case["pauth"])))
+        if case.get("hdr_on_session"):
+            # the same headers supplied as session defaults (merged by _prepare_headers)
+            session = aiohttp.ClientSession(connector=conn, cookie_jar=jar, response_class=RecResponse, headers=headers or None)
+            headers = []
+        else:
+            session = aiohttp.ClientSession(connector=conn, cookie_jar=jar, response_class=RecResponse)
         kw = {}
         if case.get("req_cookies") is not None:
             kw["cookies"] = {f"c{n}": f"v{v}" for n, v in case["req_cookies"]}
@@ -416,14 +433,14 @@ def _url(u):
 
 def _loc(loc):
     k = loc["kind"]
-    if k == "none":
+    if k in ("none", "empty"):
         return "N"
     if k == "invalid":
         return "I"
     if k == "nohost":
         return "H"
     if k == "nonhttp":
-        return f"A{NONHTTP_SCHEME_CODE}.1._._.1"
+        return f"A{NONHTTP_CODES[loc.get('scheme', 'ftp')]}.1._._.1"
     if k == "abs":
         return "A" + _url(loc)
     if k == "rel":
@@ -524,7 +541,8 @@ def impl_obs(case, out):
                 cookies.append([n, v])
         body = [k for k, b in BODY_BYTES.items() if b.decode() == r["body"]]
         tgt = r["target"]
-        reqs.append({"sch": SCHEMES.index(r["sch"]), "host": HOSTS.index(r["host"]), "port": r["port"],
+        reqs.append({"sch": SCHEMES.index(r["sch"]) if r["sch"] in SCHEMES else r["sch"],
+                     "host": HOSTS.index(r["host"]) if r["host"] in HOSTS else r["host"], "port": r["port"],
                      "method": r["method"] if r["method"] in METHODS else f"M{method_code(r['method'])}",
                      "path": int(tgt[2:]) if tgt.startswith("/p") and tgt[2:].isdigit() else tgt,
                      "auth": one(r["auth"], auth_tab), "pauth": one(r["pauth"], pa_tab),
@@ -624,18 +642,22 @@ def oracle(case, obs, raw):
     for i in range(n - 1):
         st = chain[i]["status"] if i < len(chain) else 200
         em, eb = doc_table(st, reqs[i]["method"], reqs[i]["body"])
-        if (reqs[i + 1]["method"], reqs[i + 1]["body"]) != (em, eb):
+        if eb in ("gen", "nonseek"):
+            bad.append(("consumed_body_followed", f"after {st} to a {reqs[i]['method']} whose one-shot body ({eb}) was already streamed, "
+                        f"request {i + 1} was made ({reqs[i + 1]['method']}, body {reqs[i + 1]['body']}) instead of refusing the redirect"))
+        elif (reqs[i + 1]["method"], reqs[i + 1]["body"]) != (em, eb):
             bad.append(("method_body_table", f"after {st} to a {reqs[i]['method']} with body {reqs[i]['body']}: next request is "
                         f"{reqs[i + 1]['method']} with body {reqs[i + 1]['body']}, documented {em} with {eb}"))
-        if eb in ("gen", "nonseek") and reqs[i + 1]["body"] != "none":
-            bad.append(("consumed_body_resent", f"request {i + 1} re-sends a one-shot body"))
         if st not in REDIRECT_STATUSES:
             bad.append(("followed_non_redirect", f"request {i + 1} follows status {st}"))
         if not case.get("allow_redirects", True):
             bad.append(("followed_with_allow_redirects_false", f"request {i + 1} made although allow_redirects=False"))
         lk = (chain[i].get("loc") or {}).get("kind") if i < len(chain) else "none"
-        if lk in ("nonhttp", "invalid", "nohost", "none"):
+        if lk in ("nonhttp", "invalid", "nohost", "none", "empty"):
             bad.append(("refused_target_followed", f"request {i + 1} follows a {lk} Location"))
+    for i, r in enumerate(reqs):
+        if r["sch"] not in (0, 1):
+            bad.append(("non_http_request", f"request {i} was made for scheme {r['sch']!r}"))
     # 5. termination
     mx = case.get("max_redirects", 10)
     if mx > 0 and n > mx:
@@ -683,13 +705,19 @@ def gen_loc(rng, cur):
     if r < 0.45:
         o = cur if rng.random() < 0.35 else rng.choice(ORIGINS)
         cred = rng.randint(1, 9) if rng.random() < 0.2 else None
-        return {"kind": "abs", "sch": o[0], "host": o[1], "port": o[2], "cred": cred, "path": path}
+        loc = {"kind": "abs", "sch": o[0], "host": o[1], "port": o[2], "cred": cred, "path": path}
+        if rng.random() < 0.15:
+            loc["upper"] = True
+        if rng.random() < 0.1:
+            loc["header"] = "URI"
+        return loc
     if r < 0.70:
         return {"kind": "rel", "path": path}
     if r < 0.85:
         o = rng.choice(ORIGINS)
         return {"kind": "srel", "host": o[1], "port": o[2], "path": path}
-    return {"kind": rng.choice(["none", "invalid", "nonhttp", "nohost"])}
+    k = rng.choice(["none", "invalid", "nonhttp", "nonhttp", "nohost", "empty"])
+    return {"kind": k, "scheme": rng.choice(sorted(NONHTTP_URLS))} if k == "nonhttp" else {"kind": k}
 
 
 def loc_origin(cur, loc):
@@ -715,7 +743,8 @@ def gen_case(rng):
         "pauth": rng.randint(1, 9) if rng.random() < 0.35 else None,
         "req_cookies": [[n, 200 + n] for n in rng.sample(range(1, 7), rng.randint(1, 2))] if rng.random() < 0.45 else None,
         "url": {"sch": o[0], "host": o[1], "port": o[2], "cred": cred, "path": 0},
-        "max_redirects": rng.choice([10, 10, 10, 1, 2, 3, 4, 5, 30]),
+        "max_redirects": rng.choice([10, 10, 10, 1, 2, 3, 4, 5, 30]) if rng.random() < 0.95 else rng.choice([0, 0, -1]),
+        "hdr_on_session": rng.random() < 0.2,
         "allow_redirects": rng.random() < 0.95,
         "jar": [],
         "chain": [],
@@ -817,7 +846,7 @@ def run(ctx):
         exe = None
     check_cases(ctx, exe, "corpus", load_corpus())
     check_cases(ctx, exe, "systematic", systematic_cases())
-    n = 1500 if ctx.quick else 40000
+    n = 2500 if ctx.quick else 40000
     check_cases(ctx, exe, "random_chains", [gen_case(ctx.rng) for _ in range(n)])
 
 
